@@ -9,25 +9,36 @@ from harness.extract import session as x_session
 from harness.rigs import session as rig
 
 MANIFEST = {
-    "text": "Lean 4 proof, for every state of two or more connected nodes and every sequence of add-user, disable-user, enable-user, "
-            "change-password, local/remote login, the direct user-session-manager login/logout requests, local/remote terminal commands "
-            "carrying any node request (nested to any depth), logoff, service verbs, node power requests and ticks, about an executable model of "
-            "UserManager / UserSessionManager / Terminal: a session appears only through a login with the current password of an existing, "
-            "enabled account on a powered-on node with running managers and (remote) under the session limit, and every such attempt on an "
-            "open path succeeds; a command changes the target only through a connection whose id is a live remote session of the target "
-            "(or valid local credentials); session ids are fresh, an ended id is never valid again and commands on it change nothing; "
-            "time-out is exact; a password change ends every session of the user; an enabled admin always remains; the session limit is "
+    "text": "Lean 4 proof, for every state of two or more connected nodes — including every set of blocked directions between them — and "
+            "every sequence of add-user (request and config API), disable-user, enable-user, change-password, local/remote login, the "
+            "direct user-session-manager login/logout requests, local/remote terminal commands carrying any node request (nested to any "
+            "depth), logoff, service verbs, node power requests, ticks and ACL edits that block / open one direction of a path, about an "
+            "executable model of UserManager / UserSessionManager / Terminal: a session appears only through a login with the current "
+            "password of an existing, enabled account on a powered-on node with running managers and (remote) under the session limit, and "
+            "every such attempt succeeds iff both directions of the path are open; when only the reply is dropped the target lists a "
+            "session (it counts against the limit) that nobody can ever run a command on (orphan invariant over all sequences); a command "
+            "changes the target only through a connection whose id is a live remote session of the target (or valid local credentials), "
+            "at EVERY hop of a nested command (closed form); `success` is answered only for an executed command whose answer travelled "
+            "back; session ids are fresh, an ended id is never valid again and commands on it change nothing; time-out is exact for each "
+            "kind of session with ITS OWN parameter, in every reachable state no listed session is past its time-out and only an accepted "
+            "command moves the clock of exactly the session it travels on (a local session's clock never moves); a password change ends "
+            "every session of the user; an enabled admin always remains, whichever of the five account editors is used, accounts are never "
+            "removed / renamed / demoted / overwritten, and any configured user list starts with an enabled admin; the session limit is "
             "never exceeded and a login succeeds again once a session ended; in reachable states a session id has one client connection "
-            "and after a client logoff no node but the target holds it; the disconnect recursion never exhausts its fuel. Tie: constants, comparison operators and guard shapes "
-            "regenerated from base.py / terminal.py / service.py (Gen/Session.lean, obligations C16_gen_*) + differential rig R-sess "
-            "(2-3 real Computers on a Switch) comparing every answer and the whole session state after every operation, plus the "
-            "property's own oracle on the implementation.",
-    "note": "C16-specific: frame transport is abstracted to 'both NICs enabled and the receiver's terminal RUNNING' (one switch, no ACL); "
+            "and after a client logoff no node but the target holds it; the disconnect recursion never exhausts its fuel. Tie: constants, "
+            "comparison operators, guard shapes, the time-out decisions per session kind, every write to last_active_step and every "
+            "account-editing statement / caller / request in the package regenerated from the source (Gen/Session.lean, obligations "
+            "C16_gen_*), the requests really registered on a built node, + differential rig R-sess (2-3 real Computers on a Switch or "
+            "behind a Router whose ACL blocks single directions) comparing every answer and the whole session state after every "
+            "operation, plus the property's own oracle on the implementation.",
+    "note": "C16-specific: whatever lies between two hosts is abstracted to per-direction reachability flags (Net.blocked, driven by DENY "
+            "rules for the address pair / tcp 22 on a real router in the rig; ARP-level blocks and router power are not driven) plus 'both NICs "
+            "enabled and the receiver's terminal RUNNING'; on the routed topology a host reaches itself through its gateway (Net.hairpin); "
             "a terminal command carries any node request (file creation with a fresh name, user-manager requests, service / power "
             "requests, the direct user-session-manager requests, and terminal requests towards a further node, nested to any depth); "
             "shut_down/start_up durations 0..2.",
-    "technique": "Lean 4 theorems (invariants by induction over operation sequences) over an executable session model; model tied by "
-                 "regenerated constants/guards and a differential rig on real nodes",
+    "technique": "Lean 4 theorems (invariants by induction over operation sequences and over nested commands) over an executable session "
+                 "model; model tied by regenerated constants/guards/inventories and a differential rig on real nodes",
     "design_ref": "5/C16",
 }
 MODULES = ["PrimaiteModel.Props.C16", "PrimaiteModel.Props.C16Conn", "PrimaiteModel.Props.C16Transport",
